@@ -242,6 +242,8 @@ def run(cx, rep):
     rep.ob("C16.4", "scan", True, sample={"schema_reachable_methods_scanned": n_m})
     rep.floor("C16.4", "schema-reachable methods", n_m, 22)
     # ---------------------------------------------------------------- C16.3
+    rep.rule("C16.6", "every path that stores the definition of a named type consults the schema override")
+    override_consistency_rule(mod, spc, storers, rep, "C16.6")
     rep.rule("C16.3", "the stored body is the schema of the named type itself")
     for cname, c in sorted(mod.classes.items()):
         if c is spc:
@@ -259,6 +261,66 @@ def run(cx, rep):
                 rep.ob("C16.3", "%s.%s/body" % (cname, mname), ok,
                        "the stored definition must be `<target>.schema(ctx)` with the caller's own ctx (found %s)" % (s(init) if init is not None else None), mod.loc(call),
                        sample={"site": "%s.%s" % (cname, mname), "body": s(init) if init is not None else None})
+
+
+def override_consistency_rule(mod, spc, storers, rep, rid):
+    """A named type may have a schema override in the printing context.  Whoever stores the definition of a NAMED
+    type must store the same body - `(override(name) ?? target).schema(ctx)` - because the first writer wins: if one
+    path consults the overrides and another does not, the exported definition depends on which parser was printed
+    first.  Decided: every function that stores (directly, or through a helper it passes the name to) a definition
+    under a type name (`this.refName`, `<ref target>.name`) consults the context's override getter with that name."""
+    getters = set()
+    for mname, m in spc.methods.items():
+        fn = m["function"]
+        if fn.get("body") is None:
+            continue
+        rt = tsast.type_str((fn.get("returnType") or {}).get("typeAnnotation"))
+        if "Runtype" in rt:
+            getters.add(mname)
+    rep.ob(rid, "override-getter", bool(getters), "no method of SchemaPrintingContext hands out a schema override (Runtype-returning getter)", mod.loc(spc.node),
+           sample={"override_getters": sorted(getters)})
+    n = 0
+    for cname, c in sorted(mod.classes.items()):
+        if c is spc:
+            continue
+        # methods of this class that store a definition under a name taken from a parameter
+        helpers = {}
+        for mname, m in c.methods.items():
+            fn = m["function"]
+            if fn.get("body") is None:
+                continue
+            ps = ts_common.fn_params(fn)
+            for call in [x for x in walk(fn) if x["type"] == "CallExpression" and method_call(x) and method_call(x)[1] in storers]:
+                nm = s(method_call(call)[2][0])
+                if nm in ps:
+                    helpers[mname] = ps.index(nm)
+        for mname, m in sorted(c.methods.items()):
+            fn = m["function"]
+            if fn.get("body") is None:
+                continue
+            al = ts_common.local_aliases(fn)
+
+            def type_name(e):
+                e = unparen(e)
+                if e.get("type") == "Identifier" and e["value"] in al:
+                    return type_name(al[e["value"]])
+                txt = s(e)
+                return txt == "this.refName" or (txt.endswith(".name") and txt != "this.name")
+            sites = []
+            for call in [x for x in walk(fn) if x["type"] == "CallExpression" and method_call(x)]:
+                mc = method_call(call)
+                if mc[1] in storers and mc[2] and type_name(mc[2][0]):
+                    sites.append((call, mc[2][0]))
+                elif s(mc[0]) == "this" and mc[1] in helpers and helpers[mc[1]] < len(mc[2]) and type_name(mc[2][helpers[mc[1]]]):
+                    sites.append((call, mc[2][helpers[mc[1]]]))
+            for call, name_e in sites:
+                n += 1
+                consults = any(x["type"] == "CallExpression" and method_call(x) and method_call(x)[1] in getters and method_call(x)[2]
+                               and s(method_call(x)[2][0]) == s(name_e) for x in walk(fn))
+                rep.ob(rid, "%s.%s/consults-override" % (cname, mname), consults,
+                       "%s.%s stores the definition of the named type `%s` without consulting the schema override for that name, while other paths do: the exported definition then depends on which parser was printed first" % (cname, mname, s(name_e)),
+                       mod.loc(call), sample={"site": "%s.%s" % (cname, mname), "name": s(name_e)})
+    rep.floor(rid, "sites that store the definition of a named type", n, 2)
 
 
 def schema_reachable_methods(c):
